@@ -396,15 +396,18 @@ def _pure_run(case):
     fp0 = _machine_fingerprint(machine)
     out = []
     snap, acts = initial_transition(machine)
+    def hist_of(sn):
+        h = getattr(sn, "history", None)
+        return None if h is None else {k: list(v) for k, v in h.items()}
     out.append({"C": sorted(snap.configuration), "S": snap.status, "K": {k: v for k, v in snap.context.items() if isinstance(v, int)},
-                "A": [a.type for a in acts], "ran": list(log)})
+                "A": [a.type for a in acts], "ran": list(log), "H": hist_of(snap)})
     for ev in case["events"]:
-        before = (sorted(snap.configuration), dict(snap.context), snap.status)
+        before = (sorted(snap.configuration), dict(snap.context), snap.status, hist_of(snap))
         log.clear()
         nxt, acts = transition(machine, snap, ev)
-        after_in = (sorted(snap.configuration), dict(snap.context), snap.status)
+        after_in = (sorted(snap.configuration), dict(snap.context), snap.status, hist_of(snap))
         out.append({"C": sorted(nxt.configuration), "S": nxt.status, "K": {k: v for k, v in nxt.context.items() if isinstance(v, int)},
-                    "A": [a.type for a in acts], "ran": list(log), "input_mutated": before != after_in})
+                    "A": [a.type for a in acts], "ran": list(log), "input_mutated": before != after_in, "H": hist_of(nxt)})
         snap = nxt
     return out, fp0 != _machine_fingerprint(machine)
 
@@ -425,22 +428,14 @@ def _pure_worker(case):
         signal.signal(signal.SIGALRM, old)
 
 
-def _has_builtin_followups(machine):
-    s = json.dumps(machine)
-    return any(x in s for x in ('"raise"', '"xstate.raise"', '"raise_"', '"choose"', '"xstate.choose"'))
-
-
 def pure_compare(c, o1, pr):
     """problems (at most one) of the pure API run `pr` against the SyncInterpreter observations `o1`"""
     from .actions_names import BUILTINS
     pure, machine_mutated = pr
-    uses_history = "target:history" in c.get("features", []) or '"history"' in json.dumps(c["machine"])
-    followups = _has_builtin_followups(c["machine"])
     if machine_mutated:
         return [{"kind": "pure-api-mutates-definition", "detail": "the machine definition changed during pure evaluation"}]
-    done_seen = False
     for step, (a, b) in enumerate(zip(o1, pure)):
-        if a.get("E") or a.get("cuts"):
+        if a.get("E"):
             break
         if b.get("ran"):
             return [{"kind": "pure-api-runs-user-code", "step": step, "detail": f"user actions ran inside the pure API: {b['ran'][:3]}"}]
@@ -458,12 +453,15 @@ def pure_compare(c, o1, pr):
             diffs.append("context")
         if exp_actions != got_actions:
             diffs.append("actions")
+        # the remembered history (exposed by the snapshot since the repair of F4), owner -> ids in recorded order
+        if b.get("H") is not None and b["H"] != {k: list(v) for k, v in a["H"].items()}:
+            diffs.append("history")
         if diffs:
-            return [{"kind": "pure-api-disagrees", "step": step, "after_done": done_seen, "uses_history": uses_history,
-                     "has_builtin_followups": followups,
+            # no tagging of the machine's features any more: while F4 / F5 / F32 were open the failure carried
+            # `uses_history` / `after_done` / `has_builtin_followups` so that ANY disagreement on a machine with a history
+            # state, after completion, or with a raise/choose action was classified as one of them
+            return [{"kind": "pure-api-disagrees", "step": step,
                      "detail": f"pure API vs SyncInterpreter differ in {diffs}: sync C={a['C']} S={a['S']} pure C={b['C']} S={b['S']}; sync actions {exp_actions[:4]} pure {got_actions[:4]}"}]
-        if a["S"] == "done":
-            done_seen = True
     return []
 
 
@@ -473,7 +471,7 @@ def c05_pure(tier, seed, n=120):
     fails, samples = [], []
     evals = nontrivial = 0
     cases = []
-    for prof in ("core", "select", "done", "history", "actions"):
+    for prof in ("core", "select", "done", "history", "actions", "loops"):
         for i in range(n * scale // 2):
             c = gen.gen_case(seed, prof, 12000 + i)
             if prof == "actions":
